@@ -177,6 +177,69 @@ example : evalRange (.num 1 .cm) (.num 25 .mm) true = .error .notInt := by rfl
 example : evalRange (.num 1 .px) (.num 3 .s) true = .error .incompatible := by rfl
 example : convertInt 1 .inch .px = .ok 96 := by rfl
 
+/-! ### `@for`: a `to` bound that cannot be converted is an error -/
+
+/-- both bounds carry a unit, the units differ, and the conversion of `to` fails (no CSS
+ratio, or the converted bound is not an integer): the range is an error, no value is
+visited. -/
+theorem evalRange_conversion_error (x y : Int) (u v : KU) (incl : Bool) (e : Err)
+    (hu : u ≠ KU.none) (hv : v ≠ KU.none) (hc : convertInt y v u = .error e) :
+    evalRange (.num x u) (.num y v) incl = .error e := by
+  have : ¬ (u = KU.none ∨ v = KU.none) := by
+    intro h; cases h with
+    | inl h => exact hu h
+    | inr h => exact hv h
+  simp [evalRange, this, hc]
+
+/-- units of different CSS groups (or without any fixed ratio) never convert -/
+theorem convertInt_incompatible (y : Int) (v u : KU) (hne : v ≠ u)
+    (h : ∀ fv fu, Units.cssFactor v = some fv → Units.cssFactor u = some fu → fv.grp ≠ fu.grp) :
+    convertInt y v u = .error .incompatible := by
+  unfold convertInt
+  rw [if_neg hne]
+  cases hfv : Units.cssFactor v with
+  | none => rfl
+  | some fv =>
+    cases hfu : Units.cssFactor u with
+    | none => rfl
+    | some fu =>
+      have := h fv fu hfv hfu
+      simp [this]
+
+/-- a bound whose converted value is not an integer is an error (`1cm to 25mm` is 2.5cm) -/
+theorem convertInt_not_integer (y : Int) (v u : KU) (fv fu : Units.CssF) (hne : v ≠ u)
+    (hfv : Units.cssFactor v = some fv) (hfu : Units.cssFactor u = some fu)
+    (hg : fv.grp = fu.grp) (hpv : fv.invPi = false) (hpu : fu.invPi = false)
+    (hnd : (y * ((fv.num * fu.den : Nat) : Int)) % ((fv.den * fu.num : Nat) : Int) ≠ 0) :
+    convertInt y v u = .error .notInt := by
+  unfold convertInt
+  rw [if_neg hne]
+  simp only [hfv, hfu, hg, hpv, hpu, and_self, if_true]
+  rw [if_neg hnd]
+
+/-- a non-numeric bound is an error -/
+theorem evalRange_not_number (a b : V) (incl : Bool)
+    (h : (∀ x u, a ≠ .num x u) ∨ (∀ y v, b ≠ .num y v)) :
+    evalRange a b incl = .error .notNumber := by
+  unfold evalRange
+  split
+  · next x u y v =>
+    cases h with
+    | inl h => exact absurd rfl (h x u)
+    | inr h => exact absurd rfl (h y v)
+  · rfl
+
+/-- the machine: a `@for` whose range is an error stops the whole program with that error —
+no iteration runs and nothing after it is emitted -/
+theorem for_range_error (n : Nat) (x : Nat) (a b : Expr) (incl : Bool) (body k : List Stmt) (st : St)
+    (va vb : V) (e : Err) (ha : eval st.env a = .ok va) (hb : eval st.env b = .ok vb)
+    (hr : evalRange va vb incl = .error e) :
+    exec (n + 1) (Stmt.forr x a b incl body :: k) st = .error e := by
+  simp [exec, ha, hb, hr]
+
+example : evalRange (.num 1 .px) (.num 3 .em) true = .error .incompatible :=
+  evalRange_conversion_error 1 3 .px .em true _ (by decide) (by decide) (by rfl)
+
 /-- the `@for` statement evaluates both bounds once and hands the values to the iteration -/
 theorem for_step (n : Nat) (x : Nat) (a b : Expr) (incl : Bool) (body k : List Stmt) (st : St)
     (va vb : V) (vs : List V) (ha : eval st.env a = .ok va) (hb : eval st.env b = .ok vb)
